@@ -76,8 +76,9 @@ def cli_test_mode(run, failures):
         n = 12 if run.tier == "quick" else 80
         for i in range(n):
             g = F.ProgGen(rng.fork(f"p{i}"), max_depth=3)
-            src, _ = F.render(g.program(), rng.fork(f"r{i}"), style=F.STYLES[i % 4], comment_at="slots",
-                              forms=["block", "slash"], density=0.2)
+            # without comments: every instability of commented programs is judged (and classified)
+            # at the API level; here the output must be accepted as is
+            src, _ = F.render(g.program(), rng.fork(f"r{i}"), style=F.STYLES[i % 4])
             flag = [["--hard-tabs"], ["--indent", "2"], ["--indent", "4"]][i % 3]
             p = os.path.join(tmp, f"in{i}.jsonnet")
             with open(p, "w", encoding="utf-8") as fh:
